@@ -203,6 +203,7 @@ func (b *bb) pair(args []string, count bool, setup bool) (jdoc, srv.Value) {
 			b.fail(b.classify(sig, cmd, jv.Str), what+": "+trunc(jv.Str, 300), args, jv.Str, nil)
 		} else {
 			jok = true
+			keepReply(jv.Str)
 		}
 	}
 	if ev, err := b.ja.do("ECHO", nonce); err != nil {
